@@ -42,6 +42,8 @@ PROFILES = {
 PROFILES["c11-linked"] = Profile("c11-linked", {
     "linked_copy": 40, "clone": 6, "clean": 6, "finalize": 2, "set_values": 4, "rename": 3,
     "set_attr": 3, "create_property": 3, "new_sec": 2, "export_leaf": 3, "clone_twice": 2,
+    # a Section merged with a Section of another tree: an included file saved earlier in the run
+    "save": 3, "set_include": 5,
 }, fault_share=0.1, length=(6, 16))
 PROFILES["c11-copies-2"] = PROFILES["c11-copies"]      # keeps the general profile at two thirds
 MONITORS = [mon_copy]
@@ -71,6 +73,7 @@ def differential(res, replay):
     if not info or len(snaps) != len(info):
         return
     derived = set()        # registry indices of objects that belong to copies
+    saved_by = set()       # sides (True: a copy, False: an original) that have written a file
     edits_of_copies = set()
     edits_of_originals = set()
     for k, st in enumerate(info):
@@ -84,6 +87,11 @@ def differential(res, replay):
             continue
         if args & derived and not args <= derived:
             return          # a copy and an original meet in one operation: no longer independent
+        # ... or through the store: one side saves a file, the other side includes / loads it
+        if st["op"] == "save" and args:
+            saved_by.add(bool(args <= derived))
+        if st["op"] in ("set_include", "load", "template_clone", "restart", "damage_file") and saved_by:
+            return          # (which file is read is not tracked: any file written before counts)
         if args & derived and st["op"] in ("get_values", "save"):
             return          # content of a copy leaves it through the harness (a held list, a file)
         if args and args <= derived:
